@@ -251,10 +251,13 @@ def exit_guards_before(stmt):
                     out.append(s)
                 elif isinstance(s, ast.If) and s.orelse:
                     # if c: leave  elif d: leave  else: fallthrough
+                    # (`not d` holds afterwards only if every earlier member of the chain left as well: after `if a: x = 1 elif d: raise`, a true `a` says nothing about d)
                     t = s
                     while isinstance(t, ast.If):
                         if terminates(t.body):
                             out.append(t)
+                        else:
+                            break
                         if len(t.orelse) == 1 and isinstance(t.orelse[0], ast.If):
                             t = t.orelse[0]
                         else:
@@ -292,6 +295,20 @@ def const_value(node):
 # ----------------------------------------------------------------------------
 # Forward substitution (def-use inlining over the structured statement tree)
 # ----------------------------------------------------------------------------
+
+def _renorm(e):
+    """substitution can expose idioms (`k = d.keys(); list(k)`): bring the resolved expression back to the normal form"""
+    if e is None or not isinstance(e, ast.expr):
+        return e
+    try:
+        from .idioms import normalize
+        from .prenorm import normalize_calls
+        w = ast.Expression(body=e)
+        w = normalize(normalize_calls(w))
+        return w.body
+    except Exception:
+        return e
+
 
 class _Subst(ast.NodeTransformer):
     def __init__(self, env, track_self):
@@ -377,7 +394,7 @@ class Flow:
             return None
         new = _Subst(dict(env), self.track_self).visit(clone(expr))
         ast.fix_missing_locations(new)
-        return new
+        return _renorm(new)
 
     def _key(self, target):
         if isinstance(target, ast.Name):
@@ -1166,7 +1183,7 @@ def inline_temporaries(expr, stmt, fn, depth=4, only=None, exclude=()):
         t.bound = frozenset()
         return t.visit(clone(e))
 
-    return rec(expr, stmt, depth)
+    return _renorm(rec(expr, stmt, depth))
 
 
 def forwarding_gaps(caller_fn, callee_name, names):
